@@ -131,6 +131,15 @@ fn full_cases(r: &mut Rng, n: usize, sink: &mut Sink) {
                     };
                     let e = &ctx.envs[s0.ver];
                     let coq = format!("x_ss_full_walk {}%N {} {} {} {} {} {} {}", n_tr + 5, e.env_coq, cfl(&ctx.times), cfl(&ctx.speeds), cf(fmax), coq_tstate(&s0.pre), coq_cache(&s0.pre_cache), coq_consist(c0));
+                    if let Some(tp) = &ctx.tp {
+                        let route_z = format!("[{}]", ctx.route.path.iter().map(|l| cz(l.idx() as i64)).collect::<Vec<_>>().join("; "));
+                        let coq2 = format!("x_ss_whole_sim {}%N {} {} {} {} {} {} {} {} {} {}", n_tr + 5, crate::trk::coq_net(&ctx.route.network), crate::trk::coq_tp(tp), route_z,
+                            coq_rp(&ctx.rp), cf(fmax), cfl(&ctx.times), cfl(&ctx.speeds), coq_tstate(&s0.pre), coq_cache(&s0.pre_cache), coq_consist(c0));
+                        let mut tg = tags.clone(); tg.push("from:network+route".into());
+                        sink.put(Case { id: format!("ss_whole_sim/{}", ctx.id), kind: "ss_whole_sim".into(), coq: coq2, outcome: outcome.clone(), tags: tg,
+                            input: json!({"run": ctx.input, "whole_walk": true, "end_to_end": true}), oracle_fail: vec![], known: vec![], in_domain: true });
+                        made += 1;
+                    }
                     sink.put(Case { id: format!("ss_full_walk/{}", ctx.id), kind: "ss_full_walk".into(), coq, outcome, tags,
                         input: json!({"run": ctx.input, "whole_walk": true}), oracle_fail: fails, known: vec![], in_domain: true });
                     made += 1;
